@@ -335,14 +335,6 @@ func c12Run(c c12Case, log *[]string) (viol string, nontrivial bool, classes []s
 			if cl.err == nil {
 				return fmt.Sprintf("step %d: %s(%s) was not rejected", step, op.Kind, it.GetID()), false, nil
 			}
-			if !stopped && op.Kind == "feedback-unknown" && veriflib.FindingOpen("C12-unknown-feedback-stored") {
-				// tolerated while open: the rejected item was stored in the state table; undo so that the rest of the
-				// history is still checked
-				if _, ok := r.stateTable.Load(it.GetID()); ok {
-					veriflib.Excluded("C12/model", "rejected unknown feedback left a state-table entry (open finding)")
-					r.stateTable.Delete(it.GetID())
-				}
-			}
 		case "freeze":
 			say("freeze")
 			Freeze()
@@ -560,13 +552,15 @@ func TestVerif_C12_RaceStress(t *testing.T) {
 			viol = err.Error()
 			return
 		}
+		// (deferred calls run last-in first-out: the reactor is stopped before its output channel is closed - the run loop
+		// may still be forwarding the last seed when the rounds end)
+		defer close(out)
 		defer Stop()
 		r := globalReactor
 		go func() {
 			for range out {
 			}
 		}()
-		defer close(out)
 		for i := 0; i < rounds; i++ {
 			it := c12NewSeed(fmt.Sprintf("r%d", i))
 			if err := ReceiveInsert(it); err != nil {
